@@ -15,7 +15,7 @@ import ast
 
 from ..index import AnchorMissing, Unrecognised, ClassInfo
 from ..cfg import CFG
-from ..astutil import u, body_walk, local_env, func_calls, walk_local, single_return_expr, always_terminates
+from ..astutil import linear_body, u, body_walk, local_env, func_calls, walk_local, single_return_expr, always_terminates
 from ..pend import edge_facts
 from .. import sym
 
@@ -183,7 +183,7 @@ class Flow:
                             expr_calls(v, handlers)
                         elif isinstance(v, ast.withitem):
                             expr_calls(v.context_expr, handlers)
-        stmts(fi.node.body, [])
+        stmts(linear_body(fi.node), [])
         return frozenset(res)
 
     def fixpoint(self):
@@ -280,12 +280,12 @@ def r2_validation_on_construction(ctx):
     ok = len(val) == 1 and all(g.dominates(val[0], r) for r in rets) and sym.canon(val[0].ast.value) == "cls._validate(data, new_lines)"
     ctx.ob(fr.where, "line-group formats are validated (record markers) before a buffer is constructed", ok, "", key="C15-R2|validate-dominates")
     fq = ix.func("bionumpy.io.fastq_buffer", "FastQBuffer._validate")
-    first = [s for s in fq.node.body if not (isinstance(s, ast.Expr) and isinstance(s.value, ast.Constant))][0]
+    first = [s for s in linear_body(fq.node) if not (isinstance(s, ast.Expr) and isinstance(s.value, ast.Constant))][0]
     ok = isinstance(first, ast.Expr) and sym.canon(first.value) == f"super()._validate({fq.params[1]}, {fq.params[2]})"
     ctx.ob(fq.where, "FASTQ validation first runs the marker check of the base class, then the '+' line check", ok, u(first), key="C15-R2|fastq-super")
     env = local_env(fq.node)
     d, nl = fq.params[1], fq.params[2]
-    tests = [n for n in fq.node.body if isinstance(n, ast.If)]
+    tests = [n for n in linear_body(fq.node) if isinstance(n, ast.If)]
     ok = len(tests) == 1 and sym.canon(tests[0].test, env) == sym.canon(sym.parse_expr(f"np.any({d}[{nl}[1::cls.n_lines_per_entry] + 1] != '+')"))
     ctx.ob(fq.where, "FASTQ: the third line of every record must start with '+'", ok, u(tests[0].test) if tests else "", key="C15-R2|fastq-plus-test")
     ln = [x for x in body_walk(fq.node) if isinstance(x, ast.Assign) and u(x.targets[0]) == "line_number"]
